@@ -589,6 +589,29 @@ func (e *Enc) compileCallExpr(c *SpecCtx, x *Expr) CE {
 		a := e.compile(c, x.Args[0])
 		e.B.declTop("kindof", "(declare-fun kindof (Int) Int)")
 		return CE{T: "(kindof (ity " + a.T + "))", Typ: tMath}
+	case "update": // update(m, k, v): ghost map m with m[k] = v
+		argn(3)
+		m := e.compile(c, x.Args[0])
+		k := e.compile(c, x.Args[1])
+		v := e.compile(c, x.Args[2])
+		if m.Arr == "" {
+			fail("%s: update() on non-ghost-map", c.what)
+		}
+		return CE{T: fmt.Sprintf("(store %s %s %s)", m.T, k.T, v.T), Arr: m.Arr}
+	case "arr": // arr(s): identity of a slice's backing array (0 for nil)
+		argn(1)
+		a := e.compile(c, x.Args[0])
+		if a.Typ != nil {
+			if _, ok := a.Typ.Underlying().(*types.Pointer); ok {
+				a = e.deref(c, a)
+			}
+		}
+		return CE{T: "(sarr " + a.T + ")", Typ: tMath}
+	case "recvd": // recvd(ch): completed receives on a channel
+		argn(1)
+		a := e.compile(c, x.Args[0])
+		key, srt, _ := e.ghostKey("recvs")
+		return CE{T: fmt.Sprintf("(select %s %s)", e.get(c.st, key, srt), a.T), Typ: tMath}
 	case "sent": // sent(ch): completed sends on a channel
 		argn(1)
 		a := e.compile(c, x.Args[0])
